@@ -1096,6 +1096,9 @@ jump_handshake(br_ssl_engine_context *cc, int action)
 		if (br_ssl_engine_closed(cc)) {
 			return;
 		}
+		if (cc->application_data == 1) {
+			cc->hs_unfinished = 0;
+		}
 		if (cc->hbuf_out != cc->saved_hbuf_out) {
 			sendpld_ack(cc, cc->hbuf_out - cc->saved_hbuf_out);
 		}
@@ -1389,6 +1392,7 @@ br_ssl_engine_hs_reset(br_ssl_engine_context *cc,
 	cc->shutdown_recv = 0;
 	cc->application_data = 0;
 	cc->alert = 0;
+	cc->hs_unfinished = 1;
 	jump_handshake(cc, 0);
 }
 
